@@ -197,11 +197,12 @@ pub fn registry_plan_only() -> Vec<ArbDecl> {
         name: "StrMaxUsize",
         family: "string",
         text: "validate(len_char_max = usize::MAX), derive(Debug, Arbitrary)",
-        run: |bytes: &[u8]| {
+        run: |bytes: &[u8], rest: bool| {
             let mut u = Unstructured::new(bytes);
-            match <StrMaxUsize as Arbitrary>::arbitrary(&mut u) {
+            let res = if rest { <StrMaxUsize as Arbitrary>::arbitrary_take_rest(Unstructured::new(bytes)) } else { <StrMaxUsize as Arbitrary>::arbitrary(&mut u) };
+                            match res {
                 Ok(v) => {
-                    let consumed = bytes.len() - u.len();
+                    let consumed = if rest { bytes.len() } else { bytes.len() - u.len() };
                     let inner: String = v.into_inner();
                     ArbOutcome::Value { valid: true, class: "inside", repr: format!("{:?}", inner), consumed }
                 }
